@@ -15,7 +15,7 @@ const SOURCES = { C01, C02, C03, C04, C05, C11, C06, C10 };
 
 export function* generate({ tier, seed }) {
   const rng = mulberry32(seed * 2654435761 + 19);
-  const keep = tier === 'quick' ? { C01: 0.25, C02: 0.12, C03: 0.5, C04: 0.4, C05: 0.5, C11: 0.5, C06: 0.25, C10: 0.08 } : { C01: 0.5, C02: 0.1, C03: 1, C04: 0.5, C05: 1, C11: 0.5, C06: 0.5, C10: 0.2 };
+  const keep = tier === 'quick' ? { C01: 0.12, C02: 0.05, C03: 0.25, C04: 0.12, C05: 0.3, C11: 0.12, C06: 0.08, C10: 0.04 } : { C01: 0.15, C02: 0.05, C03: 1, C04: 0.5, C05: 1, C11: 0.15, C06: 0.2, C10: 0.15 };
   for (const [name, mod] of Object.entries(SOURCES)) {
     for (const g of mod.generate({ tier, seed })) {
       if (rng() > keep[name]) continue;
